@@ -364,6 +364,9 @@ func genCursorIn(c *gen.Ctx) curIn {
 	in.Rows = genRows(c, col)
 	n := len(in.Rows)
 	in.PageSize = uint64(1 + r.Intn(n+2))
+	if n > 3 && r.Intn(2) == 0 {
+		in.PageSize = uint64(1 + r.Intn(3))
+	}
 	if r.Intn(15) == 0 {
 		in.PageSize = 0
 	}
